@@ -245,3 +245,11 @@ Fixpoint collapse_blanks_aux (prev_blank : bool) (s : str) : str :=
   end.
 
 Definition collapse_blanks (s : str) : str := collapse_blanks_aux false s.
+
+(** ---- addition for C10-F9: [s.replace(a, b, 1)] -- the first occurrence only
+    (same function as [Model.TtlReader.replace_first]) ---- *)
+Definition replace_once (a b s : str) : str :=
+  match find_nat a s with
+  | Some k => firstn k s ++ b ++ skipn (k + List.length a) s
+  | None => s
+  end.
